@@ -238,13 +238,43 @@ def suite_merge(ctx):
         m = ctx.rng.randrange(2, 8)
         fams.append(tuple(frozenset(ctx.rng.sample(range(10), ctx.rng.randrange(1, 4))) for _ in range(m)))
     fams.append(tuple())
+    # families with members that have no element at all: the empty set is a set like any other, it overlaps nothing and so is a
+    # component of its own (one union, value = the empty set) wherever it stands among the inputs, however many of them there are
+    nothing = frozenset()
+    small = [frozenset(c) for k in (1, 2) for c in itertools.combinations(range(4), k)]
+    with_empty = [(nothing,), (nothing, nothing), (nothing, nothing, nothing)]
+    for n_empty in (1, 2):
+        for m in (1, 2, 3):
+            combos = list(itertools.combinations(small, m))
+            if m == 3 or (m == 2 and n_empty == 2):
+                combos = ctx.rng.sample(combos, 12 if ctx.quick else 60)
+            with_empty += [c + (nothing,) * n_empty for c in combos]
+    for _ in range(60 if ctx.quick else 600):
+        m = ctx.rng.randrange(1, 7)
+        fam = [frozenset(ctx.rng.sample(range(10), ctx.rng.randrange(1, 4))) for _ in range(m)]
+        for _ in range(ctx.rng.choice([1, 1, 2, 3])):
+            fam.insert(ctx.rng.randrange(0, len(fam) + 1), nothing)
+        with_empty.append(tuple(fam))
+    fams += with_empty
     for fam in fams:
         fam = list(fam)
+        has_empty = any(len(s) == 0 for s in fam)
         if len(fam) <= 4:
             orders = list(itertools.permutations(range(len(fam))))
         else:
             orders = [tuple(ctx.rng.sample(range(len(fam)), len(fam))) for _ in range(4)]
-        if ctx.quick and len(orders) > 6:
+        if has_empty and len(fam) <= 4:
+            orders = sorted(set(orders), key=lambda o: [len(fam[i]) == 0 for i in o] + list(o))
+            # every position pattern of the empty members at least once; all orders of the small families
+            if ctx.quick and len(orders) > 12:
+                seen_pat, keep = set(), []
+                for o in orders:
+                    pat = tuple(len(fam[i]) == 0 for i in o)
+                    if pat not in seen_pat:
+                        seen_pat.add(pat)
+                        keep.append(o)
+                orders = keep + ctx.rng.sample([o for o in orders if o not in keep], 4)
+        elif ctx.quick and len(orders) > 6:
             orders = orders[:2] + ctx.rng.sample(orders[2:], 4)
         want = _components(fam)
         any_overlap = any(len(c) > 1 for c in want)
@@ -275,8 +305,13 @@ def suite_merge(ctx):
                     model.append((tuple(int(v) for v in ks.split(",")), [int(v) for v in vs.split(",")] if vs else []))
                 if model != impl:
                     ctx.disagree("merge", inp, impl, model)
-            ctx.case("merge", tuple(tuple(sorted(s)) for s in sets), nontrivial=any_overlap,
-                     sample={"input": inp, "impl": impl})
+            if has_empty:
+                # counted on its own: non-trivial when the empty member stands among other sets
+                ctx.case("merge-with-empty-sets", tuple(tuple(sorted(s)) for s in sets), nontrivial=len(sets) >= 2, sample={"input": inp, "impl": impl})
+                ctx.count("merge.empty_members.%d" % min(3, sum(1 for s in sets if not s)))
+            else:
+                ctx.case("merge", tuple(tuple(sorted(s)) for s in sets), nontrivial=any_overlap,
+                         sample={"input": inp, "impl": impl})
         ctx.count("merge.components.%d" % min(len(want), 4))
 
 
